@@ -16,7 +16,7 @@ pub struct Case {
     pub ds: Vec<Elem>,
     /// encode in explicit LE (true) or implicit LE (false)
     pub explicit: bool,
-    /// transfer syntax declared to the flexible reader: 0 implicit LE, 1 explicit LE
+    /// transfer syntax declared to the flexible reader: 0 implicit LE, 1 explicit LE, 2 JPEG Baseline, 3 Encapsulated Uncompressed
     pub declared: u8,
     /// forced first element: (tag, VR code spelled by the low 16 bits of its length, multiples of 64 KiB added)
     pub forced: Option<((u16, u16), String, u8)>,
@@ -95,9 +95,13 @@ fn check(c: &Case, obs: &mut Obs) {
         let len = lo + (*k as usize) * 65536;
         // value of exactly `len` bytes under the VR the stream will carry
         let vr_on_wire = if c.explicit {
-            // a conforming explicit writer uses the dictionary VR (or any VR for unknown tags)
-            match dict().lookup(*tag) {
-                Lookup::None => "OB".to_string(),
+            // a conforming explicit writer uses the dictionary VR (or any VR for unknown tags); for an entry that
+            // allows two VRs, either of them
+            match (dict().lookup(*tag), entry_vr(*tag).as_deref()) {
+                (Lookup::None, _) => "OB".to_string(),
+                (_, Some("Xs")) => ["US", "SS"][*k as usize % 2].to_string(),
+                (_, Some("Lt")) => ["US", "OW"][*k as usize % 2].to_string(),
+                (_, Some("Ox")) | (_, Some("Px")) => ["OB", "OW"][*k as usize % 2].to_string(),
                 _ => dict().implicit_vr(*tag).to_string(),
             }
         } else {
@@ -105,6 +109,7 @@ fn check(c: &Case, obs: &mut Obs) {
         };
         let v = match vr_on_wire.as_str() {
             "US" => Val::U16(vec![0x4142; len / 2]),
+            "SS" => Val::I16(vec![0x4142; len / 2]),
             "OW" => Val::U16(vec![0x0102; len / 2]),
             "OB" | "UN" => Val::U8(vec![0x41; len]),
             "UL" => Val::U32(vec![7; len / 4]),
@@ -173,7 +178,13 @@ fn check(c: &Case, obs: &mut Obs) {
     let mode = if c.all_undefined { LenMode::AllUndefined } else { LenMode::AsFlagged };
     let bytes = ds::encode_ds(&ir, enc, mode);
     let right_ts = ts_of(if c.explicit { 1 } else { 0 }).0;
-    let declared_ts = ts_of(c.declared).0;
+    // the declared syntax may also be an encapsulated (explicit VR little endian based) one: flexible decoding
+    // must not depend on the codec of the declared syntax
+    let declared_ts = match c.declared {
+        2 => dicom_transfer_syntax_registry::entries::JPEG_BASELINE.erased(),
+        3 => dicom_transfer_syntax_registry::entries::ENCAPSULATED_UNCOMPRESSED_EXPLICIT_VR_LITTLE_ENDIAN.erased(),
+        d => ts_of(d % 2).0,
+    };
     let want = match tokens(&bytes, &right_ts, false) {
         Ok(t) => t,
         Err(e) => {
@@ -210,7 +221,7 @@ fn check(c: &Case, obs: &mut Obs) {
 pub fn run(ctx: &Ctx) {
     ctx.run_prop(
         "flexible_vs_plain",
-        "G-DS data sets encoded by the reference encoder in Explicit LE and Implicit LE; in ~35% of cases a first element is forced whose value length has low 16 bits spelling one of the even VR codes (DA DS DT FL FD LO LT PN TM, optionally + k*64KiB) on a tag with an incompatible, compatible or no dictionary entry, and in ~30% a later top-level element (never the first) gets such a length on a tag whose dictionary VR may equal the spelled code; flexible reader (declared Explicit LE or Implicit LE) token stream must equal the plain explicit resp. implicit reader's; cases ambiguous by the stated rule are skipped and counted; non-trivial = implicit input whose first length spells a VR and is unambiguous, or a later element whose length spells a VR",
+        "G-DS data sets encoded by the reference encoder in Explicit LE and Implicit LE; in ~35% of cases a first element is forced whose value length has low 16 bits spelling one of the even VR codes (DA DS DT FL FD LO LT PN TM, optionally + k*64KiB) on a tag with an incompatible, compatible or no dictionary entry, and in ~30% a later top-level element (never the first) gets such a length on a tag whose dictionary VR may equal the spelled code; flexible reader (declared Explicit LE, Implicit LE or, in 20%, an encapsulated syntax: JPEG Baseline / Encapsulated Uncompressed) token stream must equal the plain explicit resp. implicit reader's; cases ambiguous by the stated rule are skipped and counted; non-trivial = implicit input whose first length spells a VR and is unambiguous, or a later element whose length spells a VR",
         || {
             let forced_tag = prop_oneof![
                 // standard tags of various dictionary VRs
@@ -227,6 +238,9 @@ pub fn run(ctx: &Ctx) {
                 Just((0x0018, 0x605A)),       // FL
                 Just((0x0028, 0x0010)),       // US
                 Just((0x0028, 0x0106)),       // Xs
+                Just((0x0028, 0x3006)),       // Lt (LUT Data: US or OW)
+                Just((0x0028, 0x1200)),       // Lt (Gray Lookup Table Data)
+                Just((0x0028, 0x0120)),       // Xs (Pixel Padding Value)
                 Just((0x0009, 0x0010)),       // private creator (LO)
                 Just((0x0009, 0x1001)),       // private, unknown
                 Just((0x0006, 0x1000)),       // unknown even group
@@ -253,7 +267,7 @@ pub fn run(ctx: &Ctx) {
             (
                 gen::dataset(DsCfg { max_depth: 2, max_top: 5, pixel_seq: false }),
                 any::<bool>(),
-                0u8..2,
+                prop_oneof![4 => 0u8..2, 1 => 2u8..4],
                 proptest::option::weighted(0.35, (forced_tag, 0..SPELL.len(), prop_oneof![4 => Just(0u8), 1 => 1u8..3])),
                 proptest::option::weighted(0.3, (later_tag, 0..SPELL.len(), prop_oneof![4 => Just(0u8), 1 => 1u8..3])),
                 any::<bool>(),
